@@ -11,8 +11,20 @@
      the semantics by their schedule; consecutive co-enabled steps give pairs with the checker's OWN field values
      (communication ids, ends); same requirement; the view model of M is compared with the checker's records.
 
-Mutations tried (clone-and-relink of the mutated Transition.cpp, quick tier), all caught (exit 1):
-  (filled in below after the runs)
+  extension (signature "C39:enables:..."): a transition whose execution ENABLES another one (disabled before it) must be
+     declared dependent with it in the executed/executed view (what odpor::Execution builds happens-before from); this is
+     the other half of the usual definition of independence, not in the statement; the unchanged tree satisfies it.
+
+Genuine defect found on the unchanged tree (KNOWN_FINDINGS.jsonl, proposed/fix-C39-barrier-lock-lock.diff):
+  two BARRIER_ASYNC_LOCK on one barrier are declared independent, but with more participants than the barrier's size the
+  order of arrival decides who completes the group (barrier of 2, three actors: sdpor/odpor reach 1 of the 4 outcomes that
+  reduction none and the reference reach). With the proposed fix C39 exits 0 without KNOWN-FINDING and sdpor/odpor reach 4.
+
+Mutations tried (mutated Transition.cpp recompiled from a worktree and relinked into a copy of the build, quick tier):
+  * the fix "a comm test of a not yet paired communication depends on the send/receive that may pair with it" reverted
+        -> VIOLATION (iSend|iRecv vs TestComm, pp / ee / real views)
+  * MUTEX_UNLOCK declared independent of MUTEX_WAIT on the same mutex
+        -> not visible to the statement itself (the two are never co-enabled); VIOLATION through the "enables" extension
 """
 import json, os
 import vlib
@@ -24,7 +36,19 @@ from kernel_common import op, new_prog
 
 LEVEL = "model_checking"
 DRIVERS = {"mc_unit_driver": MC.DRIVERS["mc_unit_driver"]}
-META = None
+META = {"text": "TLC explores every reachable state of every generated program on the reference semantics at the granularity of the "
+                "checker's transitions and decides, for every pair of co-enabled transitions of different actors, whether they "
+                "commute (neither disables the other, same state in both orders up to the numbering of activities); each pair is "
+                "described as the checker sees it (pending and executed views) and rebuilt as two real Transition objects whose real "
+                "depends() is asked in both directions: symmetric, and 'independent' only for pairs that commute in every state "
+                "where they occur. The same is done on pairs of consecutive co-enabled steps of executions really explored by "
+                "simgrid-mc (reduction none), with the checker's own field values, which also checks the view model.",
+        "note": "Trusted: TLC, the reference semantics SgKernel (bound to the real kernel by the kernel checks and C43), the driver's "
+                "decoding path. Programs of 2-3 actors x up to 4 operations: mutexes, semaphore, barrier, mailboxes, wait/test; "
+                "condition variables, waitany/testany, actor transitions are not covered. One deviation is recorded as a known "
+                "finding (two BARRIER_ASYNC_LOCK on one barrier). The 'enables' extension goes beyond the statement.",
+        "technique": "TLC model checking (SgKernelCommute over SgKernelMC) + real depends() from transitions rebuilt by "
+                     "mc_unit_driver + TLC replay of simgrid-mc explorations (SgKernelCommuteReplay, hooks H1/H4)"}
 
 
 def directed_programs():
